@@ -48,11 +48,11 @@ STD_ENUMS = {
     'core::task::poll::Poll': {'0': 'Ready', '1': 'Pending'},
 }
 
-Store = namedtuple('Store', 'S P T V len0 own resched sched pend S0 pan')
+Store = namedtuple('Store', 'S P T V len0 own resched sched pend S0 pan pre acq0 act')
 
 
 def mk_store(T='N', P=None):
-    return Store(S=None, P=P, T=T, V=(), len0='?', own='?', resched=0, sched=0, pend=0, S0=None, pan=0)
+    return Store(S=None, P=P, T=T, V=(), len0='?', own='?', resched=0, sched=0, pend=0, S0=None, pan=0, pre=None, acq0=None, act=0)
 
 
 def vget(st, l):
@@ -446,7 +446,14 @@ class Proto:
             self.events[('region_exit', fn.name, '')].add((st.S, st.T, enums, st.len0, st.own, st.S0 if st.S0 is not None else st.S))
         P = st.S if st.T == 'H' else None
         pan = 1 if (st.S == frozenset(['Panicked']) and st.T == 'N') else st.pan
-        return st._replace(S=None, P=P, len0='?', own='?', S0=None, pan=pan)
+        pre = st.S0 if st.S0 is not None else st.S
+        acq0 = st.acq0
+        if st.T == 'H' and st.S0 is not None and not (st.S0 & OWNED):
+            acq0 = (tuple(sorted(st.S0)), st.len0)
+        sched = st.sched
+        if fn is not None and fn.name.endswith('SchedulerCore::reschedule_queue') and st.S == frozenset(['WaitingForPoll']) and st.T == 'N':
+            sched = 1   # a queue abandoned by its polling task must be offered to the pool
+        return st._replace(S=None, P=P, len0='?', own='?', S0=None, pan=pan, pre=pre, acq0=acq0, sched=sched)
 
     def _is_local_enum(self, fn, l):
         a = self.facts.adts.get(ty_head(fn.local_ty(l)))
@@ -696,6 +703,7 @@ class Proto:
                 self.viol.append(('TOK-requeue', fn.name, 'returns while a job that returned Pending has not been put back', fn.loc(bb)))
             self.events[('exit', fn.name, '')].add((st.T, ret))
             self.events[('exit_pan', fn.name, '')].add((st.pan, ret))
+            self.events[('exit_act', fn.name, '')].add((st.pre, st.act))
 
     def _switch(self, fn, bb, t, st):
         d = t['discr']
@@ -952,8 +960,10 @@ class Proto:
                     return done(st, ('bool', int(lv[1] in names)))
             return done(st, None)
         if name.endswith('Scheduler::reschedule_queue') or name.endswith('SchedulerCore::reschedule_queue'):
-            x = st._replace(resched=0)
+            x = st._replace(resched=0, act=st.act | 1)
             return done(x, None)
+        if name.endswith('thread::Thread::unpark'):
+            return done(st._replace(act=st.act | 2), None)
         if name.endswith('::schedule_thread'):
             x = st
             if st.sched == 2:
@@ -975,6 +985,8 @@ class Proto:
                 crh = c in self.requires_held
                 if record:
                     self.events[('call', fn.name, c)].add((st.T, crh))
+                    if crh:
+                        self.events[('call_acq', fn.name, c)].add(st.acq0)
                     if crh and st.T == 'H' and st.P is not None:
                         self._entryP_new[c] |= set(st.P)
                 if crh and st.T != 'H':
